@@ -23,28 +23,28 @@ type bceEntry struct {
 }
 
 var bceReviewed = map[string]bceEntry{
-	"args|[]string[int:]":     {1, "args[doubleDashPos:]: pflag.ArgsLenAtDash() is a position inside pflag.Args() (library post-condition); tested != -1 first", ""},
-	"args|[]string[0]":        {1, "strings.SplitN always returns at least one element", ""},
-	"args|[]string[1]":        {1, "the splitter is only called on the strings.Contains(arg, \"=\") edge (rule C19 splitvar), so SplitN(…, 2) yields two elements", ""},
-	"task|os.Args[0]":         {1, "process-level: os.Args always holds the program name; not Taskfile input", ""},
-	"errors|*yaml.TypeError.Errors[0]": {1, "yaml.TypeError is only constructed with at least one message; the > 1 case is handled by the other branch", ""},
-	"task|*editors.Taskfile.Tasks[int]": {2, "o.Tasks is made with len(tasks) and the index ranges over tasks", ""},
-	"task|[]*ast.Task[int]":   {3, "index is the loop variable of a `for i := range tasks` over the same slice (closure per iteration)", ""},
-	"internal/execext|[]*syntax.Word[0]": {1, "guarded by the len(words) == 0 return just above", "nonempty"},
-	"internal/flags|os.Args[1:]": {1, "process-level: os.Args is never empty", ""},
-	"internal/slicesext|[]T[int:]": {1, "i is the running sum of copied lengths and r was made with the total length", ""},
-	"internal/sort|[]string[int]": {2, "sort callback: indices are supplied by sort.Slice over the same slice", ""},
-	"internal/version|debug.BuildSetting.Value[:7]": {1, "build-info string (a VCS revision hash), not user input", ""},
-	"task|*ast.Task.Cmds[int]": {3, "the index is the loop variable of the cmds loop over the call-private compiled task, handed unchanged to the command runner / deferred-command runner (rules cmds-in-order, defer-registration)", ""},
-	"taskfile/ast|[]string[0]": {2, "topological order of a graph to which the reader always adds the root vertex first / strings.Split always returns at least one element", ""},
-	"taskfile/ast|*yaml.Node.Content[int]": {4, "i < len(node.Content) is the loop condition", ""},
-	"taskfile/ast|*yaml.Node.Content[int + 1]": {4, "a yaml.v3 MappingNode always has an even number of Content entries (key/value pairs); only indexed under `case yaml.MappingNode`", ""},
-	"taskfile/ast|*ast.Task.Aliases[int]": {1, "index ranges over the same slice", ""},
-	"taskfile|strings.Split(*url.URL.Path, \"//\")[0]": {1, "strings.Split always returns at least one element", ""},
-	"taskfile|string[:int]": {1, "i is strings.Index(uri, …) and was tested != -1", ""},
+	"args|[]string[int:]":                                                  {1, "args[doubleDashPos:]: pflag.ArgsLenAtDash() is a position inside pflag.Args() (library post-condition); tested != -1 first", ""},
+	"args|[]string[0]":                                                     {1, "strings.SplitN always returns at least one element", ""},
+	"args|[]string[1]":                                                     {1, "the splitter is only called on the strings.Contains(arg, \"=\") edge (rule C19 splitvar), so SplitN(…, 2) yields two elements", ""},
+	"task|os.Args[0]":                                                      {1, "process-level: os.Args always holds the program name; not Taskfile input", ""},
+	"errors|*yaml.TypeError.Errors[0]":                                     {1, "yaml.TypeError is only constructed with at least one message; the > 1 case is handled by the other branch", ""},
+	"task|*editors.Taskfile.Tasks[int]":                                    {2, "o.Tasks is made with len(tasks) and the index ranges over tasks", ""},
+	"task|[]*ast.Task[int]":                                                {3, "index is the loop variable of a `for i := range tasks` over the same slice (closure per iteration)", ""},
+	"internal/execext|[]*syntax.Word[0]":                                   {1, "guarded by the len(words) == 0 return just above", "nonempty"},
+	"internal/flags|os.Args[1:]":                                           {1, "process-level: os.Args is never empty", ""},
+	"internal/slicesext|[]T[int:]":                                         {1, "i is the running sum of copied lengths and r was made with the total length", ""},
+	"internal/sort|[]string[int]":                                          {2, "sort callback: indices are supplied by sort.Slice over the same slice", ""},
+	"internal/version|debug.BuildSetting.Value[:7]":                        {1, "build-info string (a VCS revision hash), not user input", ""},
+	"task|*ast.Task.Cmds[int]":                                             {3, "the index is the loop variable of the cmds loop over the call-private compiled task, handed unchanged to the command runner / deferred-command runner (rules cmds-in-order, defer-registration)", ""},
+	"taskfile/ast|[]string[0]":                                             {2, "topological order of a graph to which the reader always adds the root vertex first / strings.Split always returns at least one element", ""},
+	"taskfile/ast|*yaml.Node.Content[int]":                                 {4, "i < len(node.Content) is the loop condition", ""},
+	"taskfile/ast|*yaml.Node.Content[int + 1]":                             {4, "a yaml.v3 MappingNode always has an even number of Content entries (key/value pairs); only indexed under `case yaml.MappingNode`", ""},
+	"taskfile/ast|*ast.Task.Aliases[int]":                                  {1, "index ranges over the same slice", ""},
+	"taskfile|strings.Split(*url.URL.Path, \"//\")[0]":                     {1, "strings.Split always returns at least one element", ""},
+	"taskfile|string[:int]":                                                {1, "i is strings.Index(uri, …) and was tested != -1", ""},
 	"taskfile|[]string[*taskfile.Snippet.start - 1:*taskfile.Snippet.end]": {2, "both ends are clamped in NewSnippet: end = max(min(…, len(linesRaw)-1, len(linesHighlighted)), 0), start = min(max(…, 1), end+1)", ""},
-	"taskfile|*taskfile.Snippet.linesRaw[int]": {1, "linesRaw and linesHighlighted are cut with the same bounds in NewSnippet, the index ranges over linesHighlighted", ""},
-	"task|[]string[int]": {2, "keys[i]: itemsFromFor appends keys and values in lockstep (map case) so len(keys) == len(list) whenever keys is non-empty; guarded by len(keys) > 0", "nonempty"},
+	"taskfile|*taskfile.Snippet.linesRaw[int]":                             {1, "linesRaw and linesHighlighted are cut with the same bounds in NewSnippet, the index ranges over linesHighlighted", ""},
+	"task|[]string[int]":                                                   {2, "keys[i]: itemsFromFor appends keys and values in lockstep (map case) so len(keys) == len(list) whenever keys is non-empty; guarded by len(keys) > 0", "nonempty"},
 }
 
 var bceSkipPkgs = map[string]bool{Mod + "/cmd/release": true, Mod + "/cmd/sleepit": true, Mod + "/cmd/tmp": true}
@@ -211,11 +211,11 @@ func shapeOf(info *types.Info, e ast.Expr) string {
 }
 
 var otherReviewed = map[string]string{
-	"taskfile/ast.(*Task).WildcardMatch|regexp.MustCompile":      "the pattern consists of regexp.QuoteMeta'd pieces joined by a fixed group (decided by rule pattern-literal, re-run here)",
-	"internal/deepcopy.TraverseStringsFunc|copy.Interface().(T)":  "the copy is created with reflect.New(original.Type()), so it has the static type T",
+	"taskfile/ast.(*Task).WildcardMatch|regexp.MustCompile":              "the pattern consists of regexp.QuoteMeta'd pieces joined by a fixed group (decided by rule pattern-literal, re-run here)",
+	"internal/deepcopy.TraverseStringsFunc|copy.Interface().(T)":         "the copy is created with reflect.New(original.Type()), so it has the static type T",
 	"taskfile.(*Reader).include$1|edge.Properties.Data.([]*ast.Include)": "edge data is only ever written by this function as []*ast.Include",
-	"taskfile.init|panic":      "init-time registration of the embedded syntax-highlighting style / lexer; independent of user input",
-	"taskfile.init#2|panic":    "init-time registration of the embedded syntax-highlighting style / lexer; independent of user input",
+	"taskfile.init|panic":   "init-time registration of the embedded syntax-highlighting style / lexer; independent of user input",
+	"taskfile.init#2|panic": "init-time registration of the embedded syntax-highlighting style / lexer; independent of user input",
 }
 
 func c16OtherPanics(c *Check, a *Anchors) {
@@ -309,19 +309,19 @@ func c16OtherPanics(c *Check, a *Anchors) {
 
 // nilFreeInputs: loops over []*ast.T whose input cannot contain nil elements, with the producer that guarantees it.
 var nilFreeInputs = map[string]string{
-	"task.(*Executor).runDeps|Task.Deps":                                  "ranges over the compiled task: the task compiler skips nil deps",
-	"task.(*Executor).areTaskPreconditionsMet|Task.Preconditions":         "compiled task: the task compiler skips nil preconditions",
-	"pkg internal/fingerprint|Task.Generates": "every function of the fingerprint package receives the compiled task: templater.ReplaceGlobs drops nil globs",
-	"pkg internal/fingerprint|Task.Sources":   "every function of the fingerprint package receives the compiled task: templater.ReplaceGlobs drops nil globs",
-	"pkg internal/summary|Task.Deps":          "the summary printer receives the compiled task: the task compiler skips nil deps",
-	"pkg internal/summary|Task.Cmds":          "the summary printer receives the compiled task: the task compiler skips nil cmds",
-	"task.(*Executor).registerWatchedDirs|Task.Deps":                      "compiled task",
-	"task.(*Executor).registerWatchedDirs|Task.Cmds":                      "compiled task",
-	"task.(*Executor).ListTasks|expr tasks":                               "result of GetTaskList: every element is a compiled task (address of a fresh literal) or a map value stored by Tasks.UnmarshalYAML as &v, never nil",
-	"taskfile/ast.NewVars|param els":                                      "variadic constructor arguments written in Go code, not decoded input",
-	"taskfile/ast.NewTasks|param els":                                     "variadic constructor arguments written in Go code",
-	"taskfile/ast.NewIncludes|param els":                                  "variadic constructor arguments written in Go code",
-	"taskfile/ast.NewMatrix|param els":                                    "variadic constructor arguments written in Go code",
+	"task.(*Executor).runDeps|Task.Deps":                          "ranges over the compiled task: the task compiler skips nil deps",
+	"task.(*Executor).areTaskPreconditionsMet|Task.Preconditions": "compiled task: the task compiler skips nil preconditions",
+	"pkg internal/fingerprint|Task.Generates":                     "every function of the fingerprint package receives the compiled task: templater.ReplaceGlobs drops nil globs",
+	"pkg internal/fingerprint|Task.Sources":                       "every function of the fingerprint package receives the compiled task: templater.ReplaceGlobs drops nil globs",
+	"pkg internal/summary|Task.Deps":                              "the summary printer receives the compiled task: the task compiler skips nil deps",
+	"pkg internal/summary|Task.Cmds":                              "the summary printer receives the compiled task: the task compiler skips nil cmds",
+	"task.(*Executor).registerWatchedDirs|Task.Deps":              "compiled task",
+	"task.(*Executor).registerWatchedDirs|Task.Cmds":              "compiled task",
+	"task.(*Executor).ListTasks|expr tasks":                       "result of GetTaskList: every element is a compiled task (address of a fresh literal) or a map value stored by Tasks.UnmarshalYAML as &v, never nil",
+	"taskfile/ast.NewVars|param els":                              "variadic constructor arguments written in Go code, not decoded input",
+	"taskfile/ast.NewTasks|param els":                             "variadic constructor arguments written in Go code",
+	"taskfile/ast.NewIncludes|param els":                          "variadic constructor arguments written in Go code",
+	"taskfile/ast.NewMatrix|param els":                            "variadic constructor arguments written in Go code",
 }
 
 func c16NilElements(c *Check, a *Anchors) {
